@@ -15,9 +15,10 @@ XLINKNS = "http://www.w3.org/1999/xlink"
 
 
 class Node:
-    __slots__ = ("tag", "attrs", "children", "text", "kind")
+    __slots__ = ("tag", "attrs", "children", "text", "kind", "flag")
 
-    def __init__(self, tag, attrs=None, children=None, text=None, kind="el"):
+    def __init__(self, tag, attrs=None, children=None, text=None, kind="el", flag=None):
+        self.flag = flag  # "unsupported" | "noise" | None
         self.tag = tag
         self.attrs = dict(attrs or {})
         self.children = list(children or [])
@@ -31,7 +32,7 @@ class Node:
                 yield from c.iter()
 
     def copy(self):
-        return Node(self.tag, dict(self.attrs), [c.copy() for c in self.children], self.text, self.kind)
+        return Node(self.tag, dict(self.attrs), [c.copy() for c in self.children], self.text, self.kind, self.flag)
 
 
 def esc(s):
@@ -193,6 +194,17 @@ class Gen:
         if n.tag in ("line",) and not self.opt["strokes"]:
             n = self.shape(closed_only=True)
         self.paint_attrs(n, leaf=True)
+        if self.opt["gradients"] and self.gradids and self.r.random() < 0.3 and n.tag != "line":
+            n.attrs.pop("fill", None)
+            n.attrs["fill"] = f"url(#{self.r.choice(self.gradids)})"
+            self.f["gradient_fill"] += 1
+        if self.opt["strokes"] and self.r.random() < 0.3:
+            sp = stroke_props(self, self.r)
+            if self.r.random() < 0.3:
+                n.attrs["style"] = (n.attrs.get("style", "") + ";" if n.attrs.get("style") else "") + ";".join(f"{k}:{v}" for k, v in sp.items())
+            else:
+                n.attrs.update(sp)
+            self.f["stroked_shape"] += 1
         if self.opt["transforms"] and self.r.random() < 0.4:
             n.attrs["transform"] = self.transform()
         return n
@@ -221,6 +233,10 @@ class Gen:
             props["fill-opacity"] = r.choice(("0.5", "0.25", "1", "0", "0.8"))
         if r.random() < (0.3 if leaf else 0.45):
             props["opacity"] = r.choice(("0.5", "0.5", "0.3", "1", "0", "0.75", "0.9"))
+            if self.opt.get("out_of_range_opacity", True) and r.random() < 0.08:
+                # legal SVG: values outside [0, 1] are clamped
+                props["opacity"] = r.choice(("1.5", "-0.25", "2", "-1"))
+                self.f["opacity_out_of_range"] += 1
         if r.random() < 0.15:
             props["fill-rule"] = r.choice(("evenodd", "nonzero"))
         if self.opt["display_none"] and r.random() < 0.06:
@@ -415,6 +431,11 @@ class Gen:
             root.attrs.update(root_attrs)
         if self.opt["clips"]:
             self.make_clips()
+        if self.opt["gradients"] and body_nodes is None and not self.gradids:
+            for i in range(self.r.randint(1, 3)):
+                gid = self.new_id("gr")
+                self.defs.append(gradient_node(self, self.r, gid))
+                self.gradids.append(gid)
         body = body_nodes if body_nodes is not None else [self.node(0) for _ in range(self.r.randint(2, 5))]
         if self.defs:
             root.children.append(Node("defs", {}, self.defs))
@@ -917,3 +938,161 @@ def gradient_doc(rng, template_before_user=False):
         g.f["grad_invisible_user"] += 1
     root = g.document(body_nodes=body)
     return to_xml(root), g.f, root
+
+
+# ---------------------------------------------------------------- mixed documents (C01, C07, C08, C14, C16)
+
+XHTML = "http://www.w3.org/1999/xhtml"
+
+
+def unsupported_node(g, r):
+    """A self-contained subtree of an element picosvg does not support."""
+    k = r.choice(("filter", "mask", "image", "text", "style", "symbol", "marker", "pattern", "foreignObject", "a", "switch", "script", "animate"))
+    rect = lambda: Node("rect", {"x": fnum(g.num(0, 50)), "y": fnum(g.num(0, 50)), "width": fnum(g.num(5, 30)), "height": fnum(g.num(5, 30)), "fill": g.color()})
+    if k == "filter":
+        n = Node("filter", {"id": g.new_id("f")}, [Node("feGaussianBlur", {"stdDeviation": "2"})])
+    elif k == "mask":
+        n = Node("mask", {"id": g.new_id("m")}, [rect()])
+    elif k == "image":
+        n = Node("image", {"x": "1", "y": "1", "width": "10", "height": "10", "xlink:href": "data:image/png;base64,AAAA"})
+    elif k == "text":
+        n = Node("text", {"x": fnum(g.num(0, 50)), "y": fnum(g.num(10, 50))}, [Node("tspan", {}, [], "two")], "one ")
+    elif k == "style":
+        n = Node("style", {"type": "text/css"}, [], ".a{fill:red}")
+    elif k == "symbol":
+        n = Node("symbol", {"id": g.new_id("sy"), "viewBox": "0 0 10 10"}, [rect()])
+    elif k == "marker":
+        n = Node("marker", {"id": g.new_id("mk"), "markerWidth": "4", "markerHeight": "4"}, [rect()])
+    elif k == "pattern":
+        n = Node("pattern", {"id": g.new_id("pt"), "width": "10", "height": "10", "patternUnits": "userSpaceOnUse"}, [rect()])
+    elif k == "foreignObject":
+        n = Node("foreignObject", {"x": "0", "y": "0", "width": "20", "height": "20"}, [Node("div", {"xmlns": XHTML}, [], "html")])
+    elif k == "a":
+        n = Node("a", {"xlink:href": "http://example.com/"}, [rect()])
+    elif k == "switch":
+        n = Node("switch", {}, [rect()])
+    elif k == "script":
+        n = Node("script", {}, [], "var a = 1;")
+    else:
+        n = Node("animate", {"attributeName": "x", "from": "0", "to": "10", "dur": "1s"})
+    n.flag = "unsupported"
+    g.f["unsupported_" + k] += 1
+    return n
+
+
+NOISE_KINDS = ("comment", "pi", "title", "desc", "metadata", "foreign_el", "foreign_attr", "anon_symbol", "wrapper_g", "whitespace")
+
+
+def noise_node(g, r, kind):
+    if kind == "comment":
+        return Node("", text=" a comment -- not ".replace("--", "- -"), kind="comment", flag="noise")
+    if kind == "pi":
+        return Node("xml-stylesheet", text='href="a.css" type="text/css"', kind="pi", flag="noise")
+    if kind == "title":
+        return Node("title", {}, [], "A title", flag="noise")
+    if kind == "desc":
+        return Node("desc", {}, [], "A description", flag="noise")
+    if kind == "metadata":
+        return Node("metadata", {}, [Node("rdf:RDF", {"xmlns:rdf": "http://www.w3.org/1999/02/22-rdf-syntax-ns#"}, [Node("rdf:Description", {"rdf:about": ""})])], flag="noise")
+    if kind == "foreign_el":
+        return Node("sodipodi:namedview", {"pagecolor": "#ffffff", "inkscape:zoom": "1"}, [Node("inkscape:grid", {"type": "xygrid"})], flag="noise")
+    if kind == "anon_symbol":
+        return Node("symbol", {}, [Node("rect", {"x": "1", "y": "2", "width": "30", "height": "40", "fill": "red"})], flag="noise")
+    raise ValueError(kind)
+
+
+FOREIGN_NS = {"xmlns:inkscape": "http://www.inkscape.org/namespaces/inkscape", "xmlns:sodipodi": "http://sodipodi.sourceforge.net/DTD/sodipodi-0.dtd"}
+
+
+def mixed_doc(rng, unsupported=True, noise=True, text_only_unsupported=False, **opt):
+    """Everything at once (for grammar / idempotence / reference / determinism checks)."""
+    o = dict(clips=rng.random() < 0.5, strokes=rng.random() < 0.5, paint=rng.random() < 0.5, gradients=rng.random() < 0.6,
+             unique_fills=False, max_depth=rng.choice((2, 3)))
+    o.update(opt)
+    g = Gen(rng, **o)
+    r = rng
+    root = g.document()
+    if r.random() < 0.4:
+        ra = Node("svg")
+        g.cascade_attrs(ra, leaf=False)
+        for k in ("opacity", "display"):
+            _del_prop(ra, k)
+        root.attrs.update(ra.attrs)
+        g.f["root_paint"] += 1
+    if r.random() < 0.3:
+        root.attrs["width"] = "100"
+        root.attrs["height"] = "100"
+    nuns = 0
+    if unsupported and r.random() < 0.5:
+        for _ in range(r.randint(1, 3)):
+            n = unsupported_node(g, r)
+            if text_only_unsupported and n.tag != "text":
+                continue
+            holders = [x for x in root.iter() if x.kind == "el" and x.tag in ("svg", "g", "defs") and x.flag is None]
+            h = r.choice(holders)
+            if h.tag == "defs" and n.tag in ("text", "a", "switch", "image", "foreignObject"):
+                h = root
+            h.children.insert(r.randint(0, len(h.children)), n)
+            nuns += 1
+    if noise and r.random() < 0.5:
+        root.attrs.update(FOREIGN_NS)
+        insert_noise(g, r, root, r.randint(1, 6))
+    sanitize_redundant_explicit(root)
+    return to_xml(root), g.f, root, {"unsupported": nuns}
+
+
+def insert_noise(g, r, root, count):
+    """Insert `count` ignorable items at random tree positions; returns descriptions."""
+    done = []
+    for _ in range(count):
+        kind = r.choice(NOISE_KINDS)
+        els = [x for x in root.iter() if x.kind == "el" and x.flag is None]
+        if kind == "foreign_attr":
+            t = r.choice(els)
+            t.attrs["inkscape:label"] = "layer"
+            if r.random() < 0.5:
+                t.attrs["sodipodi:nodetypes"] = "cccc"
+            done.append((kind, t.tag))
+        elif kind == "whitespace":
+            holders = [x for x in els if x.children and x.tag in ("svg", "g", "defs", "clipPath", "linearGradient", "radialGradient")]
+            if holders:
+                h = r.choice(holders)
+                h.children.insert(r.randint(0, len(h.children)), Node("", text=r.choice(("\n", "  ", "\n\t ")), kind="raw", flag="noise"))
+                done.append((kind, h.tag))
+        elif kind == "wrapper_g":
+            holders = [x for x in els if x.children and x.tag in ("svg", "g", "defs")]
+            if holders:
+                h = r.choice(holders)
+                i = r.randrange(len(h.children))
+                j = r.randint(i + 1, min(len(h.children), i + 3))
+                sub = h.children[i:j]
+                if all(c.kind == "el" and c.flag is None for c in sub) and not (h.tag == "svg" and any(c.tag == "defs" for c in sub) and False):
+                    w = Node("g", {}, sub, flag="noise_wrapper")
+                    h.children[i:j] = [w]
+                    done.append((kind, h.tag))
+        else:
+            allowed = ("svg", "g", "defs")
+            if kind in ("comment", "pi"):
+                allowed = ("svg", "g", "defs", "clipPath", "linearGradient", "radialGradient")
+            elif kind in ("title", "desc"):
+                allowed = ("svg", "g", "defs", "clipPath", "linearGradient", "radialGradient", "path", "rect", "circle")
+            holders = [x for x in els if x.tag in allowed]
+            h = r.choice(holders)
+            if h.tag in ("path", "rect", "circle") and h.children:
+                continue
+            h.children.insert(r.randint(0, len(h.children)), noise_node(g, r, kind))
+            done.append((kind, h.tag))
+        g.f["noise_" + kind] += 1
+    return done
+
+
+def strip_flagged(root, flags=("unsupported",)):
+    r = root.copy()
+
+    def rec(n):
+        n.children = [c for c in n.children if c.flag not in flags]
+        for c in n.children:
+            rec(c)
+
+    rec(r)
+    return r
